@@ -52,7 +52,7 @@ func VerifC04_v3_colls() {
 		body.M = map[string]int{}
 		var k0 string
 		for i := 0; i < n; i++ {
-			k := nondetStringUpTo("m-key", 3)
+			k := nondetStringUpTo("m-key", deep(3))
 			verifAssume(utf8.ValidString(k))
 			if i == 0 {
 				k0 = k
@@ -87,7 +87,7 @@ func VerifC04_v3_colls() {
 	case 4: // labels.tags: map key pattern inside a nested user type
 		body.Labels = &server.LabelsRequestBody{}
 		if nondetBool("tags-present") {
-			k := nondetStringUpTo("tag-key", 2)
+			k := nondetStringUpTo("tag-key", deep(2))
 			body.Labels.Tags = map[string]string{k: "v"}
 			if !verifKeyPat.MatchString(k) {
 				rules["invalid_pattern"] = true
